@@ -617,6 +617,17 @@ pub fn colour(src: &mut Src, k: &Knobs) -> u32 {
 fn gen_style(src: &mut Src, k: &Knobs, extent: u32, open_shape: bool) -> StyleSpec {
     let fill = if src.draw(4) != 0 { Some(colour(src, k)) } else { None };
     let stroke = if src.draw(if open_shape { 10 } else { 4 }) != 0 { Some(colour(src, k)) } else { None };
+    // display-scale class: half of the strokes are thick (48..=140), so that thick x long strokes —
+    // where 32-bit intermediate products are at risk — are frequent there
+    if k.scale >= 300 && src.bool() {
+        return StyleSpec {
+            fill,
+            stroke: Some(colour(src, k)),
+            width: 48 + src.draw(93),
+            align: src.draw(3) as u8,
+            dotted: false,
+        };
+    }
     let width = match src.draw(if open_shape { 16 } else { 8 }) {
         0 => 0,
         8..=11 => 1,
